@@ -2,16 +2,28 @@
 
 import re
 
-from .. import isagen, rvstep, x86step
+from .. import armstep, isagen, rvstep, x86step
 from ..core import Discard, HarnessError, Stats, hyp_search, jhash, open_finding_ids, subseed
 
 PID = "C07"
 TARGET = "x86_64"
 RV_TARGETS = ("riscv", "riscv:rvc")
+ARM_TARGET = "arm"
 
 
 def is_rv(target):
     return target.startswith("riscv")
+
+
+def is_arm(target):
+    return target == ARM_TARGET
+
+
+def is_emu(target):
+    """The engine of the target is one of the emulators (RISC-V: vf/rv32.py, ARM A32: vf/arm32.py)."""
+    return is_rv(target) or is_arm(target)
+
+
 RULE = (
     "instruction instances AS THE CODE GENERATOR EMITS THEM, for x86_64 and (when vf/rv32.py passes its self-check) riscv and "
     "riscv:rvc: the final (post register allocation) instruction list of every frame is captured by wrapping "
@@ -84,8 +96,21 @@ EXCLUDED_MNEMONICS = {
 def excluded_reason(cls, target=TARGET, ins=None):
     from ppci.arch.generic_instructions import ArtificialInstruction
 
-    if issubclass(cls, ArtificialInstruction) and not is_rv(target):
+    if issubclass(cls, ArtificialInstruction) and not is_emu(target):
         return "pseudo push/pop"
+    if is_arm(target):
+        # decided by the reference decoder of the emulator, not by ppci's class tables
+        if isagen.is_data_pseudo(cls) or cls.__module__.endswith("data_instructions"):
+            return "data pseudo-instruction"
+        try:
+            d = armstep.info(isagen.emit_direct_parts(ins)[0]) if ins is not None else None
+        except Exception:
+            return None
+        if d is not None and d.control:
+            return "control transfer"
+        if d is not None and d.pc_operand:
+            return "pc operand"
+        return None
     if is_rv(target):
         # decided by the reference decoder of the emulator, not by ppci's class tables
         if isagen.is_data_pseudo(cls) or cls.__module__.endswith("data_instructions"):
@@ -190,7 +215,7 @@ _REGS_BY_ID = {}  # family -> {(class name, register name): register object}
 
 
 def family(target):
-    return "rv" if is_rv(target) else "x86"
+    return "rv" if is_rv(target) else "arm" if is_arm(target) else "x86"
 
 
 def _regmap(target):
@@ -200,6 +225,8 @@ def _regmap(target):
 
         if fam == "rv":
             from ppci.arch.riscv import registers as R
+        elif fam == "arm":
+            from ppci.arch.arm import registers as R
         else:
             from ppci.arch.x86_64 import registers as R
         m = {}
@@ -236,7 +263,7 @@ def _rid(reg):
 
 
 def locate(target, reg):
-    return rvstep.locate(reg) if is_rv(target) else x86step.locate(reg)
+    return rvstep.locate(reg) if is_rv(target) else armstep.locate(reg) if is_arm(target) else x86step.locate(reg)
 
 
 def _describe_args(obj):
@@ -394,7 +421,7 @@ def harvest(frames, stats=None, target=TARGET):
                 i += 1
                 continue
             cid = class_id(target, cls)
-            if cid == "Rep" and not is_rv(target):
+            if cid == "Rep" and not is_emu(target):
                 # rep ; [usedefs] ; movsb  -> one machine instruction
                 mid = run_after(i)
                 j = i + 1 + len(mid)
@@ -531,6 +558,8 @@ def _mask(lo, width):
 def full_name(f, i, target=TARGET):
     if is_rv(target):
         return "x%d" % i
+    if is_arm(target):
+        return "r%d" % i
     return x86step.GPR[i] if f == "g" else "xmm%d" % i
 
 
@@ -546,6 +575,10 @@ class Instance:
         self.nsub = 1
         self.target = t = unit.target
         self.rv = is_rv(t)
+        self.arm = is_arm(t)
+        self.emu = self.rv or self.arm
+        self.engine = family(t)
+        self.conditional = False
         self._suspect = None
         self.args = unit.args if args is None else args
         if unit.cid == REP_MOVSB:
@@ -619,6 +652,12 @@ class Instance:
                 sp = _reg_by_id(t, "RiscvRegister", "x2")
                 self.closure |= {id(q) for q in alias_of(t, sp)}
                 self.readmask[("g", 2)] = 0xFFFFFFFF
+        elif self.arm:
+            self._scan_arm()
+            if self.implicit_sp:
+                sp = _reg_by_id(t, "ArmRegister", "SP")
+                self.closure |= {id(q) for q in alias_of(t, sp)}
+                self.readmask[("g", 13)] = 0xFFFFFFFF
         else:
             self._scan_mem(self.args)
         if unit.cid in (REP_MOVSB, "Movsb"):
@@ -651,6 +690,38 @@ class Instance:
             n += 1
         if n != self.nsub:
             raise Discard("instance encodes to %d machine instructions, ppci renders %d" % (n, self.nsub))
+
+    def _scan_arm(self):
+        """ARM: what the instruction is at machine level comes from the emulator's decoder."""
+        d = armstep.info(self.code)
+        if d is None:
+            raise Discard("instance does not encode to one A32 word")
+        if d.bad is not None:
+            raise Discard("the reference emulator does not execute the encoding (%s)" % d.bad.split(":")[0])
+        if d.control:
+            raise Discard("control transfer (excluded class)")
+        if d.pc_operand:
+            raise Discard("pc operand (excluded)")
+        self.conditional = d.cond != 14
+        named = set()
+
+        def walk(args):
+            for a in args:
+                if isinstance(a, list) and a and a[0] == "r":
+                    named.add(a[1])
+                elif isinstance(a, list) and a and a[0] == "c":
+                    walk(a[2])
+                elif isinstance(a, list) and a and a[0] == "s":
+                    named.update(a[1])
+
+        walk(self.args)
+        if d.mem is not None:
+            base, index, shift, sign, lo, hi = d.mem
+            self.mem = d.mem
+            self.addr_regs = {base} | ({index} if index is not None and sign else set())
+            if base == 13 and "SP" not in named:
+                # push / pop: the stack pointer is not an operand of the instruction but documented implicit state
+                self.implicit_sp = True
 
     def suspect_mask(self):
         """Bit set (bit i: gpr i, bit 16+i: xmm i) of the full registers that are NOT entirely inside
@@ -709,6 +780,56 @@ def _shape_state_rv(inst, st, rng):
             t &= ~3
         if base != 0:
             st["g"][base] = (rvstep.ARENA_BASE + t - imm) & 0xFFFFFFFF
+
+
+def _arm_state(rng):
+    g = [x86step.biased64(rng) & 0xFFFFFFFF for _ in range(16)]
+    g[15] = 0
+    return {"g": g, "x": [], "f": rng.below(16)}
+
+
+def _shape_state_arm(inst, st, rng):
+    """Registers that form the address point into the arena (word aligned for the multi-word transfers)."""
+    if inst.mem is None:
+        return
+    base, index, (stype, amt), sign, lo, hi = inst.mem
+    g = st["g"]
+    t = 512 + rng.below(armstep.ARENA_SIZE - 1024 - (hi - lo))
+    if hi - lo > 4 or rng.below(4):
+        t &= ~3
+    target = armstep.ARENA_BASE + t - lo  # value of base (+|-) offset register
+    if index is None or sign == 0:
+        g[base] = target & 0xFFFFFFFF
+        return
+    if index == base:
+        if stype == 0 and amt == 0 and sign == 1:
+            g[base] = ((target & ~1) >> 1) & 0xFFFFFFFF
+        return  # other shapes: the access faults and the state is counted untestable
+    from .. import arm32
+
+    iv = rng.pick((0, 1, 4, rng.below(64), (-rng.below(16)) & 0xFFFFFFFF))
+    g[index] = iv
+    off = arm32.shift_c(iv, stype, amt, (st["f"] >> 1) & 1)[0]
+    g[base] = (target - sign * off) & 0xFFFFFFFF
+
+
+def _perturbations_arm(inst, st, rng, sidx=0):
+    out = []
+    flip = sidx & 1
+    for i in range(15):
+        pm = ~inst.readmask.get(("g", i), 0) & 0xFFFFFFFF
+        if not pm:
+            continue
+        v = st["g"][i]
+        if i in inst.addr_regs:
+            nv = (v + 4 * (1 + rng.below(8))) & 0xFFFFFFFF
+        else:
+            low = pm & -pm
+            nv = v ^ low if flip else (v & ~pm & 0xFFFFFFFF) | (x86step.biased64(rng) & pm)
+            if nv == v:
+                nv = v ^ low
+        out.append(("g", i, nv))
+    return out
 
 
 def _perturbations_rv(inst, st, rng, sidx=0):
@@ -841,7 +962,7 @@ _LINE = re.compile(r"^(WRITE|READ) tgt=(\S+) cls=(\S+) reg=(\S+) out=(\S+) rm=(\
 def _rm_register(inst):
     """"<full register>@<operand position>" of the r/m operand when it is in register mode
     (RmReg8/16/32/64), else None."""
-    if inst.rv:
+    if inst.emu:
         return None
     for pos, a in enumerate(inst.args):
         if isinstance(a, list) and a and a[0] == "c" and (a[1].startswith("RmReg") or a[1].startswith("RmXmmReg")):
@@ -878,6 +999,11 @@ class _Job:
                 _shape_state_rv(inst, st, rng)
                 aseed = rng.next()
                 perts = _perturbations_rv(inst, st, rng, s)
+            elif inst.arm:
+                st = _arm_state(rng)
+                _shape_state_arm(inst, st, rng)
+                aseed = rng.next()
+                perts = _perturbations_arm(inst, st, rng, s)
             else:
                 st = x86step.random_state(rng)
                 _shape_state(inst, st, rng)
@@ -891,11 +1017,11 @@ class _Job:
     def _apply(self, s, perts):
         """The engine's input for state s with the given perturbations applied."""
         inst, st = self.inst, self.states[s]
-        if inst.rv:
+        if inst.emu:
             g = list(st["g"])
             for _, i, nv in perts:
                 g[i] = nv
-            return (inst.code, {"g": g}, self.aseeds[s])
+            return (inst.code, {"g": g, "f": st.get("f", 0)}, self.aseeds[s])
         if s not in self._base:
             self._base[s] = x86step.pack_record(inst.code, self.aseeds[s], st)
         if not perts:
@@ -940,15 +1066,19 @@ def evaluate(inst, seed, nstates, counters=None):
 
 
 def _run_engines(batches):
-    """batches: [(is_rv, records)] -> [results]; all x86 records share one stepper request."""
-    x86recs, rvrecs, where = [], [], []
-    for rv, recs in batches:
-        pool = rvrecs if rv else x86recs
-        where.append((rv, len(pool), len(recs)))
+    """batches: [(engine "x86" | "rv" | "arm", records)] -> [results]; all x86 records share one stepper request."""
+    pools = {"x86": [], "rv": [], "arm": []}
+    where = []
+    for eng, recs in batches:
+        pool = pools[eng]
+        where.append((eng, len(pool), len(recs)))
         pool.extend(recs)
-    xres = x86step.run_packed(x86recs) if x86recs else []
-    rres = rvstep.run_batch(rvrecs) if rvrecs else []
-    return [(rres if rv else xres)[a : a + n] for rv, a, n in where]
+    res = {
+        "x86": x86step.run_packed(pools["x86"]) if pools["x86"] else [],
+        "rv": rvstep.run_batch(pools["rv"]) if pools["rv"] else [],
+        "arm": armstep.run_batch(pools["arm"]) if pools["arm"] else [],
+    }
+    return [res[eng][a : a + n] for eng, a, n in where]
 
 
 def evaluate_many(jobs, counters=None):
@@ -962,7 +1092,7 @@ def evaluate_many(jobs, counters=None):
             prepared.append(d)
     live = [j for j in prepared if not isinstance(j, Discard)]
     plans = [j.round1() for j in live]
-    results = _run_engines([(j.inst.rv, recs) for j, (_, recs) in zip(live, plans)])
+    results = _run_engines([(j.inst.engine, recs) for j, (_, recs) in zip(live, plans)])
     judges = []
     second = []
     for j, (plan, _), res in zip(live, plans, results):
@@ -971,7 +1101,7 @@ def evaluate_many(jobs, counters=None):
         judges.append(jd)
         second.append(j.round2(flagged) if flagged else ([], []))
     if any(recs for _, recs in second):
-        results2 = _run_engines([(j.inst.rv, recs) for j, (_, recs) in zip(live, second)])
+        results2 = _run_engines([(j.inst.engine, recs) for j, (_, recs) in zip(live, second)])
         for jd, (plan, _), res in zip(judges, second, results2):
             if plan:
                 jd.round2(plan, res)
@@ -1014,7 +1144,7 @@ class _Judge:
         for bit in range(32):
             if not (ch >> bit) & 1:
                 continue
-            f, i = ("g", bit) if (bit < 16 or inst.rv) else ("x", bit - 16)
+            f, i = ("g", bit) if (bit < 16 or inst.emu) else ("x", bit - 16)
             vin = self._input(s, perts, f, i)
             vout = res.reg(f, i)
             d = (vin ^ vout) & (M64 if f == "x" else x86step.M128)
@@ -1283,7 +1413,7 @@ _HARVEST_CACHE = {}
 def place_absolute(target, cid, args):
     """x86-64: operands that address memory without a register (absolute disp32, rip-relative) get
     an address inside the scratch arena; everything else is returned unchanged."""
-    if is_rv(target) or not any(isinstance(a, list) and a and a[0] == "c" and a[1] in ("RmAbs", "RmRip") for a in args):
+    if is_emu(target) or not any(isinstance(a, list) and a and a[0] == "c" and a[1] in ("RmAbs", "RmRip") for a in args):
         return args
     out = []
     for a in args:
@@ -1318,7 +1448,7 @@ def _distinct_registers(target, cls, args, counter=None):
         k = isagen.kind_of(fa._cls)
         if k == "reg":
             ids = list(isagen.reg_ids(fa._cls)[0])
-            pool = [i for i in alloc.get(fa._cls.__name__, ids) if i in ids and i not in ("rsp", "rbp", "x2", "x8")] or ids
+            pool = [i for i in alloc.get(fa._cls.__name__, ids) if i in ids and i not in ("rsp", "rbp", "x2", "x8", "SP")] or ids
             counter[0] += 1
             out.append(["r", pool[counter[0] % len(pool)]])
         elif k == "ctor":
@@ -1369,7 +1499,7 @@ def isa_units(target, stats=None):
             if why is not None:
                 notes.append("isa excluded:" + why)
                 continue
-            if cid == "Rep" and not is_rv(target):
+            if cid == "Rep" and not is_emu(target):
                 notes.append("needs_context:rep prefix alone is not an instruction (judged as rep movsb)")
                 continue
             if not isagen.supported(target, cid):
@@ -1405,6 +1535,12 @@ def isa_units(target, stats=None):
                         notes.append("isa excluded:control transfer")
                         got = True
                         continue
+                if is_arm(target):
+                    d = armstep.info(code)
+                    if d is not None and (d.control or d.pc_operand):
+                        notes.append("isa excluded:" + ("control transfer" if d.control else "pc operand (%s)" % cid))
+                        got = True
+                        continue
                 u = Unit(cid, args, [], [], [], "<isa>", code, target)
                 u.key = "isa:" + u.key
                 if u.key in seen:
@@ -1424,7 +1560,7 @@ def isa_units(target, stats=None):
                 got = True
             if not got:
                 notes.append("needs_context:no accepted default operands (%s)" % cid)
-        if not is_rv(target):
+        if not is_emu(target):
             try:
                 rm = _RepMovsb()
                 u = Unit(REP_MOVSB, [], [], [], [], "<isa>", rm.encode(), target)
@@ -1467,6 +1603,10 @@ def run_case(case, stats=None):
         ok, note = rvstep.validated()
         if not ok:
             raise Discard("RISC-V emulator not validated: " + note)
+    if is_arm(case["src"].get("target", TARGET)):
+        ok, note = armstep.validated()
+        if not ok:
+            raise Discard("ARM emulator not validated: " + note)
     units = units_of(case["src"], stats)
     n = int(case.get("nstates", NSTATES))
     seed = int(case["seed"])
@@ -1618,6 +1758,29 @@ def rv_idiom_sources():
     return srcs
 
 
+# ARM A32 (integer only; ppci's ARM back end has no rule for remainders of unsigned values, floats or 64-bit integers)
+ARM_IDIOMS = [
+    "int arr[8]; char carr[16]; short sarr[8]; unsigned char ucarr[16]; unsigned short usarr[8];\nstruct S { int a; int b; short c; char d; };\nstruct S gs, gt;\n"
+    "int p1(int *p, int i){ p[i] += 3; arr[i & 7] ^= i; return p[1] + arr[2]; }\nvoid p2(struct S *p, struct S *q){ *p = *q; }\nvoid p3(void){ gs = gt; }\n"
+    "int p4(struct S *p){ p->a += p->b; p->c = p->d; p->d = p->a; return p->a; }\nvoid p5(int i, char c, short s){ carr[i & 15] = c; sarr[i & 7] = s; ucarr[i & 15] = c; usarr[i & 7] = s; }\n"
+    "int p6(int i){ return carr[i & 15] + sarr[i & 7] + ucarr[i & 15] + usarr[i & 7]; }\nint p7(int *p){ return p[0] + p[1] + p[63] + p[100]; }\n",
+    "int d5(int a, int b){ return a / b; }\nint d6(int a, int b){ return a % b; }\nunsigned d7(unsigned a, unsigned b){ return a / b; }\n",
+    "int q0(int a, int b, int c, int d, int e, int f, short g, char h);\nint q1(int a, int b){ int r = 0; while (a < b) { r += a; a++; } if (r == 5) r = 7; return r; }\n"
+    "int q2(int a, short c, char d){ return q0(a, a, a, a, a, a, c, d) + q0(1, 2, 3, 4, 5, 6, 7, 8); }\nunsigned q3(unsigned a, unsigned b){ return a < b ? a : b; }\n"
+    "int q4(char a, char b, short c, short d){ return (a < b) + (c > d); }\nint q5(int (*fp)(int), int x){ return fp(x); }\nint q6(int a){ return a + 200 + (a - 77) + 100000 + ~a; }\n"
+    "struct B { int w[6]; }; int q7(struct B b, int x);\nint r1(struct B *p){ return q7(*p, 3); }\n",
+]
+ARM_SHARED_IDIOMS = (2, 3, 4, 8)  # shifts, unary / mul / logic, integer conversions, narrowed shifts
+
+
+def arm_idiom_sources():
+    srcs = []
+    for text in [IDIOMS[k] for k in ARM_SHARED_IDIOMS] + ARM_IDIOMS:
+        for lvl in (0, 2):
+            srcs.append({"kind": "c", "text": text, "opt": lvl, "target": ARM_TARGET})
+    return srcs
+
+
 def _gencc_options():
     from .. import gencc
 
@@ -1641,7 +1804,7 @@ def program_strategy(targets=(TARGET,)):
     if TARGET in targets:
         alts.append(st.tuples(gencc.programs(_gencc_options()), st.sampled_from([0, 2])).map(lambda t: {"kind": "c", "text": t[0]["src"], "opt": t[1]}))
         alts.append(genir.modules(_genir_profile()).map(lambda d: {"kind": "ir", "desc": d, "opt": 0}))
-    rvs = [t for t in targets if is_rv(t)]
+    rvs = [t for t in targets if is_emu(t)]
     if rvs:
         nofloat = gencc.Options(max_funcs=2, max_stmts=5, max_depth=3, floats=False)
         alts.append(
@@ -1665,6 +1828,8 @@ def _allocatable(target=TARGET):
         out[rc.typ.__name__] = [r.name for r in rc.registers]
     if is_rv(target):
         out["RiscvRegister"] = sorted(set(out.get("RiscvRegister", [])) | {"x2", "x8", "x10", "x11", "x12", "x13"}, key=lambda n: int(n[1:]))
+    elif is_arm(target):
+        pass  # r0-r11 (the frame pointer r11 included); sp appears only as harvested
     else:
         out["Register64"] = out["Register64"] + ["rbp", "rsp"]
     return out
